@@ -22,6 +22,7 @@ mod c07 {
     pub mod generate;
     pub mod mutate;
     pub mod infer;
+    pub mod cycles;
 }
 
 use c07::ast::*;
@@ -1292,6 +1293,8 @@ fn worker(args: &[String]) {
     let mut drv = Driver::spawn().expect("lean driver");
     let mut rep = Report::default();
     let stdout = std::io::stdout();
+    // phase `cyc`: the rank order of the name pool in THIS process, probed before anything else is compiled
+    let ranks = if phase.starts_with("cyc") { c07::cycles::probe_ranks(&rt) } else { None };
     for i in from..from + n {
         {
             let mut o = stdout.lock();
@@ -1310,6 +1313,10 @@ fn worker(args: &[String]) {
             "gen" => gen_case(&rt, &mut drv, seed, i, &mut rep),
             "decl" => decl_case(&rt, &mut drv, seed, i, &mut rep),
             "infer" => c07::infer::infer_case(&rt, &mut drv, seed, i, &mut rep),
+            "cyc" => c07::cycles::cyc_case(&rt, &mut drv, &ranks, seed, i, false, &mut rep),
+            "cyc-gen" => c07::cycles::cyc_case(&rt, &mut drv, &ranks, seed, i, true, &mut rep),
+            "tcyc" => c07::cycles::tcyc_case(&rt, &mut drv, seed, i, false, &mut rep),
+            "tcyc-gen" => c07::cycles::tcyc_case(&rt, &mut drv, seed, i, true, &mut rep),
             "infer-gen" => c07::infer::infer_case(&rt, &mut drv, seed, i + c07::infer::REPS.len() as u64, &mut rep),
             _ => {}
         }
@@ -1416,6 +1423,36 @@ fn crashed(phase: &str, seed: u64, index: u64, ended: &Ended, rep: &mut Report) 
             &format!("crash:{kind}:{how}"),
             json!({"seed": seed, "index": index, "kind": kind, "src": src, "sexp": sexp, "original": orig.roto()}),
         );
+    } else if phase == "tcyc" || phase == "tcyc-gen" {
+        let case = if phase == "tcyc" { c07::cycles::trep_case(index as usize) } else { c07::cycles::trandom_case(seed, index) };
+        match case {
+            Some(c) => {
+                let m = c.mutant.prog();
+                rep.violation(
+                    &format!("the compiler process died ({how}) while compiling a script with a recursive type (or its well-typed original)"),
+                    &format!("crash:type-cycle:{how}"),
+                    json!({"seed": seed, "index": index, "kind": "type-cycle", "what": c.what, "detail": c.detail, "src": m.roto(), "sexp": m.sexp(), "original": c.base.prog().roto()}),
+                );
+            }
+            None => rep.mismatch(&format!("worker of phase `{phase}` died ({how})"), json!({"phase": phase, "seed": seed, "index": index})),
+        }
+    } else if phase == "cyc" || phase == "cyc-gen" {
+        // regenerate the case (the parent probes the name order the same way a worker does)
+        let rt = Runtime::new();
+        let case = c07::cycles::probe_ranks(&rt).and_then(|r| {
+            if phase == "cyc" { c07::cycles::rep_case(&r, index as usize) } else { c07::cycles::random_case(&r, seed, index) }
+        });
+        match case {
+            Some(c) => {
+                let m = c.mutant.prog();
+                rep.violation(
+                    &format!("the compiler process died ({how}) while compiling a script with a recursive constant (or its well-typed original)"),
+                    &format!("crash:value-cycle:{how}"),
+                    json!({"seed": seed, "index": index, "kind": "value-cycle", "what": c.what, "detail": c.detail, "src": m.roto(), "sexp": m.sexp(), "original": c.base.prog().roto()}),
+                );
+            }
+            None => rep.mismatch(&format!("worker of phase `{phase}` died ({how})"), json!({"phase": phase, "seed": seed, "index": index})),
+        }
     } else {
         rep.mismatch(
             &format!("worker of phase `{phase}` died ({how})"),
@@ -1443,12 +1480,23 @@ fn main() {
             let lits = env_n("C07_LIT", pick(20_000, 40_000, 150_000));
             let recs = env_n("C07_REC", pick(20_000, 40_000, 150_000));
             let infers = env_n("C07_INFER", pick(8_000, 30_000, 100_000));
+            let cycs = env_n("C07_CYC", pick(6_000, 40_000, 60_000));
             let jobs = env_n("C07_JOBS", 4);
             let mut rep = Report::default();
             run_phase("corpus", seed, corpus_files().len() as u64, 64, 1, &mut rep);
             rep.notes.push(format!("corpus: {} witnesses replayed first", corpus_files().len()));
             // the inference model against the real checker: class representatives first
             run_phase("infer", seed, c07::infer::REPS.len() as u64, 64, 1, &mut rep);
+            // value cycles: every shape of reference cycle x every closing reference x every rank order of the names
+            let cyc_reps = c07::cycles::rep_table().len() as u64;
+            run_phase("cyc", seed, cyc_reps, 64, jobs, &mut rep);
+            run_phase("cyc-gen", seed, cycs, 250, jobs, &mut rep);
+            rep.notes.push(format!("value cycles: {cyc_reps} representatives (shape x closing reference x rank order of the item names), then {cycs} random reference graphs"));
+            // the sibling rule: cycles between type declarations (type_cycle.rs)
+            let tcyc_reps = c07::cycles::trep_table().len() as u64;
+            run_phase("tcyc", seed, tcyc_reps, 64, jobs, &mut rep);
+            run_phase("tcyc-gen", seed, cycs / 2, 250, jobs, &mut rep);
+            rep.notes.push(format!("type cycles: {tcyc_reps} representatives (shape x closing mention x wrapper x kind), then {} random sets of declarations; every script compiled three times (HashMap walk order)", cycs / 2));
             run_phase("ops", seed, ops_total(), 700, jobs, &mut rep);
             run_phase("assign", seed, assign_targets().len() as u64, 64, 1, &mut rep);
             run_phase("match", seed, matches, 500, jobs, &mut rep);
